@@ -1545,8 +1545,26 @@ def ob_pseudo_hermitian(n, kind, sig_kind, tol=None, mshape=None):
     def exc_post(e, i):
         good, bad = sig_ok(i)
         return sb(isinstance(e, ValueError)) & ~sb(good)  # raising is right only if the signature is not (clearly) admissible
+    def witness():
+        # pseudo-Hermitian by construction: A = eta^{-1} K with K Hermitian (eta A eta^{-1} = K eta^{-1} = A^dagger), for a signature
+        # that is NOT an involution (for eta = diag(1,-1) conjugating on either side coincides); and A' = eta K, which is not
+        if mshape != (n, n) or n < 2:
+            return []
+        rng = np.random.default_rng(161)
+        out = []
+        for _ in range(2):
+            eta = np.diag(np.array([1.0, -2.0, 3.0, -0.5, 1.5, 2.5][:n]))
+            if sig_kind != "r":
+                U = np.linalg.qr(rng.normal(size=(n, n)) + 1j * rng.normal(size=(n, n)))[0]
+                eta = U @ eta @ U.conj().T
+                eta = (eta + eta.conj().T) / 2
+            M = rng.normal(size=(n, n)) + (1j * rng.normal(size=(n, n)) if kind != "r" and sig_kind != "r" else 0)
+            K = M + M.conj().T
+            out.append({"A": np.linalg.inv(eta) @ K, "eta": eta})
+            out.append({"A": eta @ K, "eta": eta})
+        return out
     return Obligation("is_pseudo_hermitian.eta_A_inv_eta_against_A_dagger_and_signature_guard", cfg, build, call, oracle, post=post,
-                      neg=band_neg, exc_post=exc_post, tv=False, max_paths=64)
+                      neg=band_neg, exc_post=exc_post, tv=False, max_paths=64, witness=witness)
 
 
 def ob_has_same_dimension(shapes):
@@ -1843,9 +1861,32 @@ def ob_commutant(dim, ngen, kind, k):
 
     def post(res, exp, i):
         if exp[0] is None:      # numeric replay: the number of basis elements is whatever null_space returns
-            return all(np.allclose(np.asarray(r, dtype=complex), 0, atol=1e-7) for r in res[1:])
+            ok = all(np.allclose(np.asarray(r, dtype=complex), 0, atol=1e-7) for r in res[1:])
+            if "_dim" in i:     # witnesses with a known commutant dimension ("has the right dimension")
+                ok = ok and res[0] == i["_dim"]
+            return ok
         return eq(res, exp)
-    return Obligation("commutant.every_returned_matrix_commutes_with_every_generator", cfg, build, call, oracle, post=post,
+
+    def witness():
+        # structured generators (a generic complex matrix shares no eigenvalue with its conjugate, so a conjugation slip
+        # would return an empty basis and go unnoticed): Hermitian with distinct eigenvalues => commutant dimension n
+        if kind != "c":
+            return []
+        rng = np.random.default_rng(16)
+        out = []
+        for _ in range(2):
+            M = rng.normal(size=(dim, dim)) + 1j * rng.normal(size=(dim, dim))
+            H = M + M.conj().T
+            if ngen <= 1:
+                out.append({"A": [H], "_dim": dim})
+            else:
+                out.append({"A": [H] + [H @ H + (j + 1) * H for j in range(g - 1)], "_dim": dim})
+        if dim == 2 and ngen <= 1:
+            out.append({"A": [np.array([[0, -1j], [1j, 0]])], "_dim": 2})
+        if dim == 3 and ngen <= 1:
+            out.append({"A": [np.diag([1, 1j, -1])], "_dim": 3})
+        return out
+    return Obligation("commutant.every_returned_matrix_commutes_with_every_generator", cfg, build, call, oracle, post=post, witness=witness,
                       neg_control=False, tv=False, extra_patch={"toqito.matrix_props.commutant": {"null_space": null_space_contract(k)}})
 
 
